@@ -334,7 +334,7 @@ pub fn conc_outcome(c: &ConcCase) -> Outcome {
             let mut overlapping = false;
             let total_requests: usize = c.clients.iter().map(|x| x.requests).sum();
             let mut served = 0usize;
-            let mut sched = c.schedule.iter().copied().chain(std::iter::repeat(0x7fffu16));
+            let mut sched_used = 0usize;
             let mut steps = 0usize;
             loop {
                 steps += 1;
@@ -448,7 +448,12 @@ pub fn conc_outcome(c: &ConcCase) -> Outcome {
                     Step(usize),
                     Deliver(Pipe, usize),
                 }
-                let ch = sched.next().unwrap();
+                // once the generated schedule is used up the history is drained fairly: the choice
+                // rotates over all enabled actions and deliveries are whole (a constant choice
+                // could keep picking a few-byte delivery and run into the step cap)
+                let draining = sched_used >= c.schedule.len();
+                let ch = if draining { (sched_used as u32).wrapping_mul(40503) as u16 } else { c.schedule[sched_used] };
+                sched_used += 1;
                 let mut acts: Vec<Act> = vec![];
                 for a in sim.runnable() {
                     acts.push(Act::Step(a));
@@ -460,7 +465,9 @@ pub fn conc_outcome(c: &ConcCase) -> Outcome {
                     };
                     for p in pipes {
                         if p.undelivered() > 0 {
-                            acts.push(Act::Deliver(p.clone(), 1 + (ch as usize % 9)));
+                            if !draining {
+                                acts.push(Act::Deliver(p.clone(), 1 + (ch as usize % 9)));
+                            }
                             acts.push(Act::Deliver(p.clone(), usize::MAX));
                         }
                     }
